@@ -64,6 +64,8 @@ BUILDERS = {
     'ConvexPolygon#0': lambda: lib.to_lib(A.polygon('square')),
     'ConvexPolygon#1': lambda: lib.to_lib(A.P1(A.polygon('triangle'))),
     'ConvexPolyhedron#0': lambda: lib.to_lib(A.polyhedron('tetrahedron')),
+    # a tetrahedron glued to #0 along a face (three shared vertices, another apex): == is False and must not touch either operand
+    'ConvexPolyhedron#2': lambda: lib.to_lib(X.Ph(tuple(A.POLYHEDRA['tetrahedron'][:3]) + (tuple(-c - 1 for c in A.POLYHEDRA['tetrahedron'][3]),))),
     'ConvexPolyhedron#1': lambda: lib.to_lib(X.xform(A.polyhedron('box'), ((1, 0, 0), (0, 1, 0), (0, 0, 1)), 1, (F(1, 2), F(1, 2), F(-1, 2)))),
 }
 
@@ -177,7 +179,7 @@ def diff_names(pool, fresh):
 
 
 def pool_for(tier):
-    names = list(BUILDERS) if tier != 'quick' else [n for n in BUILDERS if n.endswith('#0') or tn(n) in ('Point', 'Segment') or n in ('Line#2', 'HalfLine#2', 'ConvexPolygon#2', 'ConvexPolygon#3')]
+    names = list(BUILDERS) if tier != 'quick' else [n for n in BUILDERS if n.endswith('#0') or tn(n) in ('Point', 'Segment') or n in ('Line#2', 'HalfLine#2', 'ConvexPolygon#2', 'ConvexPolygon#3', 'ConvexPolyhedron#2')]
     return names
 
 
